@@ -585,7 +585,9 @@ class _State:
             ex = {}
             m2 = M.Mitochondria(silent=True)
             try:
-                r = m2.digest_glucose(src)
+                with prof:
+                    r = m2.digest_glucose(src)
+                ex["prof"] = prof.report()
                 head = "returned"
                 ex["text_ok"] = not (isinstance(r, str) and r.startswith("Metabolic Failure"))
                 ex["text"] = text_codes(r)
@@ -607,7 +609,9 @@ class _State:
                 ag = BioAgent("a", "Executor", ATP_Store(budget=1000, silent=True))
                 ag.mitochondria.silent = True
                 try:
-                    ap = ag.express(Signal(content="calculate " + src))
+                    with prof:
+                        ap = ag.express(Signal(content="calculate " + src))
+                    ex["agent_prof"] = prof.report()
                     ex["agent"] = "returned"
                     pl = getattr(ap, "payload", None)
                     if isinstance(pl, str) and pl.startswith("Calculated: "):
